@@ -31,6 +31,15 @@ def judge_pair(a: Any, b: Any, res: core.CaseResult, where: str, sub: Any = None
         return False
     exp = expected_equal(a, b)
     ca, cb = type(a).__name__, type(b).__name__
+    try:
+        nab, nba = (a != b), (b != a)
+    except Exception as e:  # noqa
+        res.fail(f'C20/compare-raises[{type(a).__name__}]', where + f'!= raises {type(e).__name__}: {e}', sub)
+        return False
+    if nab == ab or nba == ba:
+        res.fail(f'C20/ne-inconsistent-with-eq[{ca}]', where + f'a == b is {ab} and a != b is {nab}; b == a is {ba} and b != a is {nba} '
+                 f'(a={desc(a)}, b={desc(b)})', sub)
+        return False
     if ab != ba:
         res.fail(f'C20/not-symmetric[{ca},{cb}]', where + f'a == b is {ab} but b == a is {ba} (a={desc(a)}, b={desc(b)})', sub)
         return False
